@@ -38,6 +38,7 @@ class Connection:
     if self.is_connected():
       raise gfapy.RuntimeError(
         "Line {} is already connected to a GFA instance".format(self))
+    self._references_to_other_lines_as_identifiers(gfa)
     self._check_not_self_referencing()
     self._check_segment_references(gfa)
     previous = gfa._search_duplicate(self)
@@ -130,6 +131,25 @@ class Connection:
             "Line: {}\n".format(self)+
             "The identifier {} of the line ".format(name)+
             "is used in field {} to refer to another line".format(k))
+
+  def _references_to_other_lines_as_identifiers(self, gfa):
+    """
+    A line which is not connected may hold, in its reference fields, lines
+    which are not lines of the Gfa it is added to (lines of another Gfa, or
+    lines which were replaced or removed in the meantime, as the complement
+    of a link keeps the segments of the link). They stand for their
+    identifiers.
+    """
+    def foreign(ref):
+      return isinstance(ref, gfapy.Line) and ref.gfa is not gfa
+    for k in self.__class__.REFERENCE_FIELDS:
+      value = self._data.get(k)
+      if foreign(value):
+        self._set_existing_field(k, value.name, set_reference = True)
+      else:
+        for elem in (value if isinstance(value, list) else [value]):
+          if isinstance(elem, gfapy.OrientedLine) and foreign(elem.line):
+            elem._set_line(elem.name)
 
   def _check_segment_references(self, gfa):
     """
